@@ -14,7 +14,49 @@ from checks import registry_common as rc
 NEVER = 999999999
 
 
-def cluster_leg(c, sc):
+ENV13 = {"RNACOS_NAMING_HEALTH_TIMEOUT_SECOND": "4", "RNACOS_NAMING_INSTANCE_TIMEOUT_SECOND": "9"}
+SVC13 = "svc13"
+
+
+def _sample(cl, t0, samples, skip=()):
+    for n, nd in cl.nodes.items():
+        if n in skip:
+            continue
+        d = nd.call({"op": "ns_dump"})
+        st = {}
+        for i in d.get("instances", []):
+            if i["service"] == SVC13:
+                st[i["ip"]] = (i["healthy"], i["from_cluster"], i["lm"])
+        samples.append((int((time.time() - t0) * 1000), n, st, str(d.get("range"))))
+
+
+def _first(samples, n, pred, after=0):
+    return next((t for t, m, st, _r in samples if m == n and t >= after and pred(st)), NEVER)
+
+
+def _observe(samples, t0, name, ip, owner, nodes, regs, kind, not_before=0):
+    """one observation per state change (unhealthy / gone) of one instance: when the responsible node reported it, when
+    the others did, and the clock the time-out runs on"""
+    obs = []
+    seen = _first(samples, owner, lambda st: ip in st) if owner else NEVER
+    for state, pred, cfg_ms in (("unhealthy", lambda st: ip not in st or not st[ip][0], 4000), ("gone", lambda st: ip not in st, 9000)):
+        t_owner = _first(samples, owner, pred, max(seen, not_before)) if owner and seen != NEVER else NEVER
+        # the clock the time-out runs on: the instance's last modification on the responsible node, as that node
+        # reports it (a registration, a heartbeat, or the refresh that comes with a snapshot pull), in ms since t0 -
+        # and not before the node became responsible
+        lms = [st[ip][2] - int(t0 * 1000) for t, m, st, _r in samples if (m == owner or not owner) and ip in st and t <= t_owner]
+        base = max(lms[-1] if lms else 0, not_before - cfg_ms)
+        others = []
+        for n in nodes:
+            if n != owner and t_owner != NEVER:
+                s0 = _first(samples, n, lambda st: ip in st)
+                others.append({"n": n, "t": _first(samples, n, pred, max(s0 if s0 != NEVER else 0, not_before))})
+        obs.append({"kind": kind, "instance": name, "ip": ip, "state": state, "owner": owner or 0, "t_owner": t_owner, "others": others,
+                    "base": base, "cfg": cfg_ms, "end": samples[-1][0], "registered_at_ms": int(regs[name] * 1000)})
+    return obs
+
+
+def expiry_run(sc, out):
     """'... and then everywhere': HTTP instances of one service on a real three-node cluster stop beating (health
     time-out 4 s, instance time-out 9 s); every node is sampled every 0.4 s; each state change seen on the responsible
     node must appear on the others within the budget.  Every node pulls the other nodes' instances 1 s, 15 s and 45 s
@@ -22,62 +64,99 @@ def cluster_leg(c, sc):
     (its supervision must survive the pull); X, Y, Z are registered after it, Y exactly (instance time-out - health
     time-out) = 5 s after X, so that X's removal and Y's unhealthy mark fall into the same 2 s check tick, and nothing
     but the expiry sync itself can carry Y's mark to the other nodes before Y is removed."""
-    env = {"RNACOS_NAMING_HEALTH_TIMEOUT_SECOND": "4", "RNACOS_NAMING_INSTANCE_TIMEOUT_SECOND": "9"}
-    cl = cluster.Cluster(os.path.join(sc, "cl"), 3, extra_env=env)
-    svc = "svc13"
-    insts = {"W": "10.3.0.4", "X": "10.3.0.1", "Y": "10.3.0.2", "Z": "10.3.0.3"}
-    samples = []
     try:
-        cl.start()
-        t0 = time.time()
-        regs = {}
-        plan = [("W", 9.0, 2), ("X", 17.0, 1), ("Y", 22.0, 2), ("Z", 24.0, 3)]
-        end = t0 + 41.5
-        while time.time() < end:
-            now = time.time() - t0
-            for name, at, via in plan:
-                if name not in regs and now >= at:
-                    r = cl.nodes[via].call({"op": "ns_http_register", "service": svc, "ip": insts[name], "port": 80})
+        cl = cluster.Cluster(os.path.join(sc, "cl"), 3, extra_env=ENV13)
+        insts = {"W": "10.3.0.4", "X": "10.3.0.1", "Y": "10.3.0.2", "Z": "10.3.0.3"}
+        samples = []
+        try:
+            cl.start()
+            t0 = time.time()
+            regs = {}
+            plan = [("W", 9.0, 2), ("X", 17.0, 1), ("Y", 22.0, 2), ("Z", 24.0, 3)]
+            end = t0 + 41.5
+            while time.time() < end:
+                now = time.time() - t0
+                for name, at, via in plan:
+                    if name not in regs and now >= at:
+                        r = cl.nodes[via].call({"op": "ns_http_register", "service": SVC13, "ip": insts[name], "port": 80})
+                        if r.get("res") != "ok":
+                            raise ToolError("HTTP-style register failed: %s" % r)
+                        regs[name] = now
+                _sample(cl, t0, samples)
+                time.sleep(0.35)
+        finally:
+            cl.shutdown()
+        obs = []
+        for name, ip in insts.items():
+            # the responsible node holds the instance as its own (from_cluster = 0)
+            owner = next((n for t, n, st, _r in samples if ip in st and st[ip][1] == 0), None)
+            if owner is None:
+                raise ToolError("no node holds %s as its own instance" % name)
+            obs += _observe(samples, t0, name, ip, owner, list(cl.nodes), regs, "expiry")
+        out["expiry"] = (obs, len(samples))
+    except Exception as e:      # noqa - reported by the caller
+        out["expiry_error"] = e
+
+
+def takeover_run(sc, out):
+    """'taken over from a failed node': an HTTP instance is registered after the nodes' 15 s snapshot pull, one second
+    later the node responsible for it is killed.  The survivors notice after 15 s of silence and recompute their ranges;
+    the node that is responsible now must report the silent instance unhealthy and remove it (both time-outs have run
+    out by then), and the other survivor must follow - before the survivors' 45 s pull could re-register anything."""
+    try:
+        cl = cluster.Cluster(os.path.join(sc, "cl_takeover"), 3, extra_env=ENV13)
+        ip = "10.3.0.9"
+        samples = []
+        killed = None
+        try:
+            cl.start()
+            t0 = time.time()
+            regs = {}
+            end = t0 + 42.5
+            while time.time() < end:
+                now = time.time() - t0
+                if "V" not in regs and now >= 17.0:
+                    r = cl.nodes[1].call({"op": "ns_http_register", "service": SVC13, "ip": ip, "port": 80})
                     if r.get("res") != "ok":
                         raise ToolError("HTTP-style register failed: %s" % r)
-                    regs[name] = now
-            for n, nd in cl.nodes.items():
-                d = nd.call({"op": "ns_dump"})
-                st = {}
-                for i in d.get("instances", []):
-                    if i["service"] == svc:
-                        st[i["ip"]] = (i["healthy"], i["from_cluster"], i["lm"])
-                samples.append((int((time.time() - t0) * 1000), n, st))
-            time.sleep(0.35)
-    finally:
-        cl.shutdown()
-    obs = []
-    for name, ip in insts.items():
-        if name not in regs:
-            continue
-        # the responsible node holds the instance as its own (from_cluster = 0)
-        owner = next((n for t, n, st in samples if ip in st and st[ip][1] == 0), None)
-        if owner is None:
-            raise ToolError("no node holds %s as its own instance" % name)
+                    regs["V"] = now
+                if killed is None and now >= 18.2:
+                    killed = next((n for t, n, st, _r in samples if ip in st and st[ip][1] == 0), None)
+                    if killed is None:
+                        raise ToolError("no node holds V as its own instance")
+                    cl.nodes[killed].kill()
+                _sample(cl, t0, samples, skip=(killed,) if killed else ())
+                time.sleep(0.35)
+        finally:
+            cl.shutdown()
+        survivors = [n for n in cl.nodes if n != killed]
+        # the survivors' ranges shrink to len 2 when they declare the silent node dead
+        t_range = min(next((t for t, n, st, r in samples if n == m and "len: 2" in r), NEVER) for m in survivors)
+        if t_range == NEVER:
+            raise ToolError("the survivors never declared the killed node dead within the sampling time")
+        new_owner = next((n for t, n, st, _r in samples if n in survivors and t >= t_range and ip in st and st[ip][1] == 0), None)
+        obs = _observe(samples, t0, "V", ip, new_owner, survivors, regs, "takeover", not_before=t_range)
+        for o in obs:
+            o["t_range"] = t_range
+            o["killed"] = killed
+        out["takeover"] = (obs, len(samples))
+    except Exception as e:      # noqa
+        out["takeover_error"] = e
 
-        def first(n, pred, after=0):
-            return next((t for t, m, st in samples if m == n and t >= after and pred(st)), NEVER)
-        seen = first(owner, lambda st: ip in st)
-        t_unh = first(owner, lambda st: ip in st and not st[ip][0], seen)
-        t_gone = first(owner, lambda st: ip not in st, seen)
-        for state, t_owner, pred, cfg_ms in (("unhealthy", t_unh, lambda st: ip not in st or not st[ip][0], 4000),
-                                             ("gone", t_gone, lambda st: ip not in st, 9000)):
-            # the clock the time-out runs on: the instance's last modification on the responsible node, as that node
-            # reports it (a registration, a heartbeat, or the refresh that comes with a snapshot pull), in ms since t0
-            lms = [st[ip][2] - int(t0 * 1000) for t, m, st in samples if m == owner and ip in st and t <= t_owner]
-            base = lms[-1]
-            others = []
-            for n in cl.nodes:
-                if n != owner and t_owner != NEVER:
-                    s0 = first(n, lambda st: ip in st)
-                    others.append({"n": n, "t": first(n, pred, s0 if s0 != NEVER else 0)})
-            obs.append({"instance": name, "ip": ip, "state": state, "owner": owner, "t_owner": t_owner, "others": others,
-                        "base": base, "cfg": cfg_ms, "end": samples[-1][0], "registered_at_ms": int(regs[name] * 1000)})
+
+def cluster_leg(c, sc):
+    import threading
+    out = {}
+    ths = [threading.Thread(target=expiry_run, args=(sc, out)), threading.Thread(target=takeover_run, args=(sc, out))]
+    for t in ths:
+        t.start()
+    for t in ths:
+        t.join()
+    for k in ("expiry_error", "takeover_error"):
+        if k in out:
+            raise out[k] if isinstance(out[k], ToolError) else ToolError("%s: %r" % (k, out[k]))
+    obs = out["expiry"][0] + out["takeover"][0]
+    nsamples = out["expiry"][1] + out["takeover"][1]
     of = vlib.write_ndjson(os.path.join(sc, "expiry_obs.ndjson"), obs)
     e = dict(os.environ, JAVA_TOOL_OPTIONS="-Xss1g", OBS=of)
     meta = os.path.join(vlib.TLCDIR, "c13_chk")
@@ -90,16 +169,17 @@ def cluster_leg(c, sc):
     c.add_mc({"generated": 2, "distinct": 2, "depth": 2, "wall_s": 0, "actions": {}, "cfg": "CHK_ExpiryCluster.cfg", "module": "ExpiryCluster.tla"})
     for req, i in [(m.group(1), int(m.group(2))) for m in re.finditer(r'<<"REQ-FAILED", "(\w+)", (\d+)>>', r.stdout)]:
         o = obs[i - 1]
-        c.violation("C13:%s@cluster:%s" % (req, o["state"]),
-                    "real 3-node cluster: instance %s (last modified at %d ms, no heartbeats) became %s on its responsible node %d at %d ms "
+        c.violation("C13:%s@cluster:%s:%s" % (req, o["kind"], o["state"]),
+                    "real 3-node cluster (%s): instance %s (time-out clock started at %d ms, no heartbeats) became %s on its responsible node %d at %d ms "
                     "(configured time-out %d ms, sampling ended at %d ms), the other nodes reported it at %s "
-                    "(budget 3500 ms; %d = never within the sampling)" % (o["instance"], o["base"], o["state"], o["owner"], o["t_owner"],
-                                                                       o["cfg"], o["end"], [(x["n"], x["t"]) for x in o["others"]], NEVER),
+                    "(budget 3500 ms; %d = never within the sampling; responsible node 0 = nobody took the instance over)"
+                    % (o["kind"], o["instance"], o["base"], o["state"], o["owner"], o["t_owner"],
+                       o["cfg"], o["end"], [(x["n"], x["t"]) for x in o["others"]], NEVER),
                     {"observation": o})
     c.count(len(obs), [{"i": o["instance"], "s": o["state"]} for o in obs])
-    c.traces(1)
+    c.traces(2)
     c.cov["cluster_state_changes_observed"] = len(obs)
-    c.cov["cluster_samples"] = len(samples)
+    c.cov["cluster_samples"] = nsamples
 
 
 def run(tier):
@@ -124,7 +204,8 @@ def run(tier):
         "last-modified time, so H and T are exact; real clock: one tick = 300 ms, thresholds half a tick early",
         "'then everywhere': one real three-node cluster run (time-outs 4 s / 9 s, four instances of one service, one "
         "registered before and three after the nodes' 15 s snapshot pull, two of them exactly 5 s apart, no beats), every node sampled every ~0.4 s; a state change on the responsible node must show "
-        "on the others within 3.5 s (requirement evaluated by TLC, ExpiryCluster.tla)",
+        "on the others within 3.5 s (requirement evaluated by TLC, ExpiryCluster.tla); a second cluster run kills the node "
+        "responsible for a freshly registered instance: the survivor that is responsible afterwards must expire it",
     ]
     shutil.rmtree(sc, ignore_errors=True)
     return c.finish(
